@@ -104,7 +104,7 @@ def run(sim: Sim) -> None:
                     if twin is None:
                         twin = m
                     # the process ends; a new one starts
-                    seams.clear_memos()
+                    seams.apply_process_state(None)
                     seams.entropy_jump(sim)
                     m = GameRegretMinimizer.load(d)
                     fs.uninstall()
